@@ -351,8 +351,15 @@ func compileMetadata(
 	}
 	keyspace.Aggregates = make(map[string]*AggregateMetadata, len(aggregates))
 	for i, _ := range aggregates {
-		aggregates[i].FinalFunc = *keyspace.Functions[aggregates[i].finalFunc]
-		aggregates[i].StateFunc = *keyspace.Functions[aggregates[i].stateFunc]
+		// an aggregate declared without FINALFUNC has a null final_func, and
+		// the functions may have been read before the aggregate's ones were
+		// created: leave the zero FunctionMetadata then
+		if fn, ok := keyspace.Functions[aggregates[i].finalFunc]; ok {
+			aggregates[i].FinalFunc = *fn
+		}
+		if fn, ok := keyspace.Functions[aggregates[i].stateFunc]; ok {
+			aggregates[i].StateFunc = *fn
+		}
 		keyspace.Aggregates[aggregates[i].Name] = &aggregates[i]
 	}
 	keyspace.Views = make(map[string]*ViewMetadata, len(views))
